@@ -678,6 +678,13 @@ class Corners(Part):
 # -- chains of extensions and uses in macro bodies ---------------------------
 
 CHAIN_SLOTS = ["s", "q"]
+# (slot names need not be identifiers; names that differ only in such
+# characters are different slots)
+CHAIN_POOLS = [["s", "q"], ["s", "q"], ["a-b", "a_b"], ["x.y", "x-y"]]
+
+
+def pool_of(case):
+    return case.get("pool") or CHAIN_SLOTS
 
 
 @st.composite
@@ -688,6 +695,7 @@ def chain_cases(draw):
     macros (fill some slots, a filler may offer its slot again); then 1..3
     uses by a caller, rendered 1..2 times with the same library object."""
     macros = []
+    CHAIN_SLOTS = draw(st.sampled_from(CHAIN_POOLS))
     for k in range(draw(st.integers(2, 6))):
         if k and draw(st.integers(0, 2)) != 0:
             fills = {}
@@ -713,7 +721,7 @@ def chain_cases(draw):
         uses.append({"macro": k,
                      "fills": [n for n in CHAIN_SLOTS + ["zz"]
                                if draw(st.booleans())]})
-    return {"macros": macros, "uses": uses,
+    return {"macros": macros, "uses": uses, "pool": CHAIN_SLOTS,
             "rounds": draw(st.integers(1, 2))}
 
 
@@ -776,7 +784,7 @@ def chain_expand(case, k, outer):
                 for n in m["use"]["fills"]})
         return "<p>%s]</p>" % body
     passed = {}
-    for n in CHAIN_SLOTS:
+    for n in pool_of(case):
         how = m["fills"].get(n)
         if how == "reoffer":
             passed[n] = "<b>%s-%s(%s)</b>" % (name, n, outer.get(
@@ -829,7 +837,7 @@ class Chains(Part):
         exp = "<div>" + "".join(
             chain_expand(case, use["macro"], {
                 n: "<u>c%d-%s</u>" % (u, n) for n in use["fills"]
-                if n in CHAIN_SLOTS}) + "|"
+                if n in pool_of(case)}) + "|"
             for u, use in enumerate(case["uses"])) + "</div>"
         o = run(PageTemplate, lib_src)
         if not o.ok:
